@@ -1,7 +1,10 @@
 import Orx.KSRun
 import Orx.IW.Completed
 import Orx.IW.Full
-import Orx.GenThms
+import Orx.GenThms.Slice
+import Orx.GenThms.Vec
+import Orx.GenThms.Arr
+import Orx.GenThms.Range
 /-! # C11 try_get_len / has_more are truthful; 'No' is definitive -/
 namespace Orx.Props.C11
 open Orx Orx.KS
